@@ -1,5 +1,5 @@
 (* Proofs about the waste pager (index tokens counting down from the newest record). *)
-From SC Require Import Base.Prelude Pages.Pager Pages.C15Judge Pages.PagerProofs.
+From SC Require Import Base.Prelude Pages.Codec Pages.PagerCfg Pages.Pager Pages.C15Judge Pages.PagerProofs.
 
 Local Open Scope Z_scope.
 Local Arguments Z.add : simpl never.
@@ -71,8 +71,8 @@ Lemma waste_respond_spec ids start count :
   0 <= start <= zlen ids -> 1 <= count ->
   waste_respond ids start count =
     if count <? start
-    then OPage (firstn (Z.to_nat count) (newest_first ids start)) (Some (start - count)) (zlen ids)
-    else OPage (newest_first ids start) None (zlen ids).
+    then OPage (firstn (Z.to_nat count) (newest_first ids start)) (Some (start - count)) (wrap32 (zlen ids))
+    else OPage (newest_first ids start) None (wrap32 (zlen ids)).
 Proof.
   intros Hs Hc. unfold waste_respond. rewrite waste_list_spec by lia.
   pose proof (newest_first_len ids start Hs) as Hlen.
@@ -94,132 +94,152 @@ Proof.
   destruct (Z.ltb_spec size 0); [lia|]. reflexivity.
 Qed.
 
-(* number of calls for [start] remaining records: one for an empty remainder, else ceil(start/c) *)
+(* number of calls to list [start] remaining records when request i asks for sizes[i]: no call
+   is wasted on an empty page (the token is dropped when nothing remains) *)
+Fixpoint calls_waste (start : Z) (sizes : list Z) : Z :=
+  match sizes with
+  | [] => 0
+  | s :: ss =>
+      if s <? 0 then 1
+      else if start <=? waste_count s then 1
+      else 1 + calls_waste (start - waste_count s) ss
+  end.
+
+(* the same page size on every request: one call for an empty remainder, else ceil(start/c) *)
 Definition waste_calls (start c : Z) : Z := (Z.max start 1 - 1) / c + 1.
 
-Definition wchain_good (rest : list string) (c n start : Z) (obs : list (outcome Z)) : Prop :=
-  chain_shape_ok obs = true /\ concat_keys obs = rest
-  /\ forallb (page_fits c n) obs = true /\ zlen obs = waste_calls start c
-  /\ (0 < start -> forallb (fun o => negb (match page_keys o with [] => true | _ => false end)) obs = true).
-
-Lemma newest_first_step ids start c :
-  0 < c < start -> start <= zlen ids ->
-  newest_first ids start = firstn (Z.to_nat c) (newest_first ids start) ++ newest_first ids (start - c).
+Lemma calls_waste_le : forall sizes start, 0 <= start -> calls_waste start sizes <= Z.max start 1.
 Proof.
-  intros Hc Hs. rewrite <- (firstn_skipn (Z.to_nat c) (newest_first ids start)) at 1. f_equal.
-  unfold newest_first. rewrite skipn_rev, firstn_firstn. f_equal. f_equal.
+  induction sizes as [|s ss IH]; intros start Hs; cbn [calls_waste]; [lia|].
+  destruct (Z.ltb_spec s 0); [lia|].
+  pose proof (waste_count_bounds s ltac:(lia)).
+  destruct (Z.leb_spec start (waste_count s)); [lia|].
+  specialize (IH (start - waste_count s) ltac:(lia)). lia.
+Qed.
+
+Lemma calls_waste_const size : 0 <= size -> forall fuel start, 0 <= start ->
+  waste_calls start (waste_count size) <= Z.of_nat fuel ->
+  calls_waste start (const_sizes size fuel) = waste_calls start (waste_count size).
+Proof.
+  intros Hs. pose proof (waste_count_bounds size Hs) as Hc. set (c := waste_count size) in *.
+  induction fuel as [|f IH]; intros start Hst Hf.
+  - unfold waste_calls in Hf. assert (0 <= (Z.max start 1 - 1) / c) by (apply Z.div_pos; lia). lia.
+  - unfold const_sizes. cbn [repeat calls_waste]. fold (const_sizes size f). fold c.
+    destruct (Z.ltb_spec size 0); [lia|].
+    destruct (Z.leb_spec start c) as [Hle|Hgt].
+    + unfold waste_calls. rewrite Z.div_small by lia. reflexivity.
+    + assert (Hcalls : waste_calls start c = waste_calls (start - c) c + 1).
+      { unfold waste_calls. rewrite !Z.max_l by lia.
+        replace (start - 1) with (start - c - 1 + 1 * c) by lia. rewrite Z.div_add by lia. lia. }
+      rewrite IH by lia. lia.
+Qed.
+
+Definition not_empty_page {T} (o : outcome T) : bool :=
+  match o with OPage [] _ _ => false | _ => true end.
+
+Lemma newest_first_skip ids start c :
+  0 < c < start -> start <= zlen ids ->
+  skipn (Z.to_nat c) (newest_first ids start) = newest_first ids (start - c).
+Proof.
+  intros Hc Hs. unfold newest_first. rewrite skipn_rev, firstn_firstn. f_equal. f_equal.
   rewrite firstn_length_le by (unfold zlen in *; lia). lia.
 Qed.
 
-Lemma waste_chain_from ids size :
-  0 <= size ->
-  forall fuel start,
-    0 <= start <= zlen ids ->
-    waste_calls start (waste_count size) <= Z.of_nat fuel ->
-    wchain_good (newest_first ids start) (waste_count size) (zlen ids) start
-      (waste_chain ids size fuel (WNum start)).
+(* THE induction for waste: any log, any page sizes (also negative ones), from any valid index *)
+Lemma waste_chain_from ids :
+  forall sizes start,
+    0 <= start <= zlen ids -> Z.max start 1 <= zlen sizes ->
+    let obs := waste_chain ids sizes (WNum start) in
+    enumerates (newest_first ids start) (wrap32 (zlen ids)) sizes obs = true
+    /\ zlen obs = calls_waste start sizes
+    /\ (0 < start -> forallb not_empty_page obs = true).
 Proof.
-  intros Hsize. pose proof (waste_count_bounds size Hsize) as Hc. set (c := waste_count size) in *.
-  induction fuel as [|f IH]; intros start Hs Hfuel.
-  - unfold waste_calls in Hfuel.
-    assert (0 <= (Z.max start 1 - 1) / c) by (apply Z.div_pos; lia). lia.
-  - unfold waste_chain. cbn [chain_with].
-    rewrite (waste_page_in_range ids start size Hs Hsize). fold c.
-    rewrite (waste_respond_spec ids start c Hs) by lia.
-    pose proof (newest_first_len ids start Hs) as Hlen.
-    destruct (Z.ltb_spec c start) as [Hlt|Hge].
-    + (* full page, go on from start - c >= 1 *)
-      assert (Hs' : 0 <= start - c <= zlen ids) by lia.
-      assert (Hcalls : waste_calls start c = waste_calls (start - c) c + 1).
-      { unfold waste_calls. rewrite !Z.max_l by lia.
-        replace (start - 1) with (start - c - 1 + 1 * c) by lia. rewrite Z.div_add by lia. lia. }
-      specialize (IH (start - c) Hs' ltac:(lia)).
-      destruct IH as [Hsh [Hcat [Hfit [Hn Hne]]]].
-      change (wchain_good (newest_first ids start) c (zlen ids) start
-                (OPage (firstn (Z.to_nat c) (newest_first ids start)) (Some (start - c)) (zlen ids)
-                   :: waste_chain ids size f (WNum (start - c)))).
-      assert (Hl : zlen (firstn (Z.to_nat c) (newest_first ids start)) = c).
-      { unfold zlen in *. rewrite firstn_length_le by lia. lia. }
-      repeat split.
-      * exact Hsh.
-      * simpl. rewrite Hcat. symmetry. apply newest_first_step; lia.
-      * simpl. rewrite Hfit, Hl, Z.eqb_refl. destruct (Z.leb_spec c c); [reflexivity|lia].
-      * rewrite zlen_cons, Hn, Hcalls. lia.
-      * intros _. simpl. rewrite Hne by lia.
-        destruct (firstn (Z.to_nat c) (newest_first ids start)) eqn:Hf0; [|reflexivity].
-        unfold zlen in Hl. simpl in Hl. lia.
-    + (* the remainder fits: last page *)
-      repeat split.
-      * simpl. apply app_nil_r.
-      * simpl. rewrite Hlen, Z.eqb_refl. destruct (Z.leb_spec start c); [reflexivity|lia].
-      * unfold waste_calls. rewrite Z.div_small by lia. reflexivity.
-      * intros Hpos. simpl. destruct (newest_first ids start) eqn:Hf0; [|reflexivity].
+  induction sizes as [|s ss IH]; intros start Hs Hfuel obs.
+  - unfold zlen in Hfuel at 1. simpl in Hfuel. lia.
+  - unfold obs, waste_chain. cbn [chain_req]. fold (waste_chain ids).
+    destruct (Z.ltb_spec s 0) as [Hneg|Hpos].
+    + assert (Hp : waste_page ids (WNum start) s = OErr InvalidArgument).
+      { unfold waste_page. destruct (Z.ltb_spec start 0); [lia|]. destruct (Z.ltb_spec (zlen ids) start); [lia|].
+        simpl. destruct (Z.ltb_spec s 0); [reflexivity|lia]. }
+      rewrite Hp. cbn [enumerates calls_waste]. destruct (Z.ltb_spec s 0); [|lia].
+      repeat split; reflexivity.
+    + rewrite (waste_page_in_range ids start s Hs Hpos).
+      pose proof (waste_count_bounds s Hpos) as Hc. set (c := waste_count s) in *.
+      rewrite (waste_respond_spec ids start c Hs) by lia.
+      pose proof (newest_first_len ids start Hs) as Hlen.
+      cbn [calls_waste]. destruct (Z.ltb_spec s 0) as [|_]; [lia|]. fold c.
+      destruct (Z.ltb_spec c start) as [Hlt|Hge].
+      * destruct (Z.leb_spec start c); [lia|].
+        assert (Hs' : 0 <= start - c <= zlen ids) by lia.
+        assert (Hfuel' : Z.max (start - c) 1 <= zlen ss) by (rewrite zlen_cons in Hfuel; lia).
+        destruct (IH (start - c) Hs' Hfuel') as [IHe [IHn IHp]].
+        assert (Hssne : ss <> []).
+        { intros ->. unfold zlen in Hfuel' at 1. simpl in Hfuel'. lia. }
+        set (F := firstn (Z.to_nat c) (newest_first ids start)).
+        assert (HlenFn : List.length F = Z.to_nat c).
+        { unfold F. apply firstn_length_le. unfold zlen in *. lia. }
+        assert (Hl : zlen F = c) by (unfold zlen; rewrite HlenFn; lia).
+        assert (Hnn : is_nil (waste_chain ids ss (WNum (start - c))) = false)
+          by (apply chain_req_nonempty; exact Hssne).
+        cbn [enumerates]. destruct (Z.ltb_spec s 0) as [|_]; [lia|].
+        rewrite (waste_count_is_spec s Hpos). fold c. rewrite Hl.
+        destruct (Z.leb_spec c c); [|lia]. rewrite Z.eqb_refl.
+        replace (is_prefix F (newest_first ids start)) with true by (symmetry; apply is_prefix_firstn).
+        fold (waste_chain ids ss (WNum (start - c))).
+        rewrite Hnn, HlenFn. rewrite newest_first_skip by lia. cbn [andb negb].
+        repeat split.
+        -- exact IHe.
+        -- rewrite zlen_cons, IHn. reflexivity.
+        -- intros _. cbn [forallb]. rewrite IHp by lia.
+           destruct F eqn:HF0; [|reflexivity]. unfold zlen in Hl. simpl in Hl. lia.
+      * destruct (Z.leb_spec start c); [|lia].
+        cbn [enumerates]. destruct (Z.ltb_spec s 0) as [|_]; [lia|].
+        rewrite (waste_count_is_spec s Hpos). fold c. rewrite Hlen.
+        destruct (Z.leb_spec start c); [|lia]. rewrite !Z.eqb_refl, is_prefix_refl.
+        repeat split.
+        intros Hp0. cbn [forallb]. destruct (newest_first ids start) eqn:Hf0; [|reflexivity].
         unfold zlen in Hlen. simpl in Hlen. lia.
-Qed.
-
-Lemma waste_calls_le start c : 0 <= start -> 1 <= c -> waste_calls start c <= start + 1.
-Proof.
-  intros Hs Hc. unfold waste_calls.
-  pose proof (div_le_self (Z.max start 1 - 1) c). lia.
 Qed.
 
 Lemma waste_page_empty_tok ids size : waste_page ids WEmpty size = waste_page ids (WNum (zlen ids)) size.
 Proof. reflexivity. Qed.
 
-Lemma waste_chain_empty_tok ids size fuel :
-  waste_chain ids size fuel WEmpty = waste_chain ids size fuel (WNum (zlen ids)).
-Proof. destruct fuel; [reflexivity|]. unfold waste_chain. cbn [chain_with]. rewrite waste_page_empty_tok. reflexivity. Qed.
+Lemma waste_chain_empty_tok ids sizes :
+  waste_chain ids sizes WEmpty = waste_chain ids sizes (WNum (zlen ids)).
+Proof. destruct sizes; [reflexivity|]. unfold waste_chain. cbn [chain_req]. rewrite waste_page_empty_tok. reflexivity. Qed.
 
-Lemma waste_chain_rejects ids size tok fuel :
-  waste_token_bad (zlen ids) tok = true \/ size < 0 -> (1 <= fuel)%nat ->
-  waste_chain ids size fuel tok = [OErr InvalidArgument].
+Lemma waste_chain_rejects ids sizes tok :
+  waste_token_bad (zlen ids) tok = true -> sizes <> [] ->
+  waste_chain ids sizes tok = [OErr InvalidArgument].
 Proof.
-  intros H Hf. destruct fuel as [|f]; [lia|]. unfold waste_chain. cbn [chain_with]. unfold waste_page.
-  destruct tok as [|z|]; [| |reflexivity].
-  - destruct H as [H|H]; [discriminate|].
-    destruct (Z.ltb_spec (zlen ids) 0); [pose proof (zlen_nonneg ids); lia|].
-    destruct (Z.ltb_spec (zlen ids) (zlen ids)); [lia|]. simpl.
-    destruct (Z.ltb_spec size 0); [reflexivity|lia].
-  - destruct ((z <? 0) || (zlen ids <? z)) eqn:Hr; [reflexivity|].
-    destruct H as [H|H]; [simpl in H; congruence|].
-    destruct (Z.ltb_spec size 0); [reflexivity|lia].
+  intros H Hf. destruct sizes as [|s ss]; [congruence|]. unfold waste_chain. cbn [chain_req]. unfold waste_page.
+  destruct tok as [|z|]; [discriminate| |reflexivity].
+  simpl in H. rewrite H. reflexivity.
 Qed.
 
-Lemma wchain_good_enumerates rest n size start obs :
-  0 <= size -> 0 <= start <= n ->
-  wchain_good rest (waste_count size) n start obs -> enumerates rest n size obs = true.
+Theorem waste_model_ok ids sizes tok :
+  in32 (zlen ids) = true -> zlen ids < zlen sizes ->
+  C15_ok (KWaste ids sizes tok (waste_chain ids sizes tok)) = true.
 Proof.
-  intros Hsize Hn [Hs [Hcat [Hfit [Hlen _]]]]. unfold enumerates.
-  rewrite Hs, Hcat, (waste_count_is_spec size Hsize), Hfit.
-  rewrite (list_eqb_refl String.eqb String.eqb_refl). simpl.
-  pose proof (waste_count_bounds size Hsize).
-  pose proof (waste_calls_le start (waste_count size)).
-  destruct (Z.leb_spec (zlen obs) (n + 2)); [reflexivity|lia].
-Qed.
-
-Theorem waste_model_ok ids size tok :
-  C15_ok (KWaste ids size tok (waste_chain ids size (harness_fuel ids) tok)) = true.
-Proof.
-  unfold C15_ok, harness_fuel. pose proof (zlen_nonneg ids) as Hn0.
-  destruct (waste_token_bad (zlen ids) tok || (size <? 0)) eqn:Hbad.
-  - rewrite waste_chain_rejects; [reflexivity| |lia].
-    apply orb_true_iff in Hbad. destruct Hbad as [H|H]; [left; exact H|right].
-    destruct (Z.ltb_spec size 0); [assumption|discriminate].
-  - apply orb_false_iff in Hbad. destruct Hbad as [Htok Hsz].
-    assert (Hsize : 0 <= size) by (destruct (Z.ltb_spec size 0); [discriminate|lia]).
-    pose proof (waste_count_bounds size Hsize) as Hc.
+  intros H32 Hfuel. unfold C15_ok. pose proof (zlen_nonneg ids) as Hn0.
+  assert (Hsz : sizes <> []).
+  { intros ->. unfold zlen in Hfuel at 2. simpl in Hfuel. lia. }
+  destruct (waste_token_bad (zlen ids) tok) eqn:Hbad.
+  - rewrite waste_chain_rejects by auto. reflexivity.
+  - assert (Hgo : forall z, 0 <= z <= zlen ids ->
+      enumerates (newest_first ids z) (zlen ids) sizes (waste_chain ids sizes (WNum z))
+      && (zlen (waste_chain ids sizes (WNum z)) <=? zlen ids + 2) = true).
+    { intros z Hz. destruct (waste_chain_from ids sizes z Hz ltac:(lia)) as [He [Hn _]].
+      rewrite (in32_wrap _ H32) in He. rewrite He, Hn.
+      pose proof (calls_waste_le sizes z ltac:(lia)).
+      destruct (Z.leb_spec (calls_waste z sizes) (zlen ids + 2)); [reflexivity|lia]. }
     destruct tok as [|z|]; [| |discriminate].
     + rewrite waste_chain_empty_tok.
       replace (waste_expected ids WEmpty) with (newest_first ids (zlen ids)).
       2:{ unfold newest_first. rewrite to_nat_zlen, firstn_all. reflexivity. }
-      apply (wchain_good_enumerates _ _ _ (zlen ids)); auto; [lia|].
-      apply waste_chain_from; auto; [lia|].
-      pose proof (waste_calls_le (zlen ids) (waste_count size)). unfold zlen in *. lia.
-    + simpl in Htok. apply orb_false_iff in Htok. destruct Htok as [Hz0 Hzn].
-      assert (Hz : 0 <= z <= zlen ids).
-      { destruct (Z.ltb_spec z 0); [discriminate|]. destruct (Z.ltb_spec (zlen ids) z); [discriminate|]. lia. }
+      apply Hgo. lia.
+    + simpl in Hbad. apply orb_false_iff in Hbad. destruct Hbad as [Hz0 Hzn].
       change (waste_expected ids (WNum z)) with (newest_first ids z).
-      apply (wchain_good_enumerates _ _ _ z); auto.
-      apply waste_chain_from; auto.
-      pose proof (waste_calls_le z (waste_count size)). unfold zlen in *. lia.
+      apply Hgo.
+      destruct (Z.ltb_spec z 0); [discriminate|]. destruct (Z.ltb_spec (zlen ids) z); [discriminate|]. lia.
 Qed.
